@@ -33,7 +33,7 @@ CliDiff(sc, o, obs) ==
   (IF o.tally = Tally(obs.rows) THEN {} ELSE {"rows"}) \cup
   (IF o.exit = obs.exit THEN {} ELSE {"exit"}) \cup
   (IF o.msg = obs.msg THEN {} ELSE {"msg"}) \cup
-  (IF o.nerr = obs.nlog THEN {} ELSE {"nlog"}) \cup
+  (IF obs.nlog <= o.nerr /\ o.nerr <= obs.nlog + obs.nunk THEN {} ELSE {"nlog"}) \cup
   (IF sc.cmd = "filter" /\ (o.matched # obs.matched \/ o.read # obs.read) THEN {"summary"} ELSE {}) \cup
   \* peak = the largest number of mentioned inputs seen open at the same time (-1: not sampled)
   (IF obs.peak > MaxOpen(sc) THEN {"fds"} ELSE {})
